@@ -4,6 +4,7 @@
 //! what happened into ndjson trace events that TLC validates against spec/Trace_*.tla.
 mod util;
 mod d_base64;
+mod d_pool;
 
 fn main() {
     let args: Vec<String> = std::env::args().collect();
@@ -15,6 +16,7 @@ fn main() {
     let opts = util::Opts::parse(&args[2..]);
     let rc = match args[1].as_str() {
         "base64" => d_base64::run(&opts),
+        "pool" => d_pool::run(&opts),
         other => {
             eprintln!("unknown domain {}", other);
             2
